@@ -55,9 +55,15 @@ impl MonitorUpdatingPersisterAsync {
 	async fn cleanup_in_range(&self, monitor_key: &StrKey, start: u64, end: u64)
         requires end <= stored_latest(monitor_key.0), end < u64::MAX
     {
-		for update_id in it: start..=end
-            invariant end <= stored_latest(monitor_key.0), forall|k: int| 0 <= k < it.seq().len() ==> it.seq()[k] <= end
+		// R13: `for update_id in start..=end` as an explicit loop over the inclusive range
+		let mut __cur = start;
+        let mut __done = start > end;
+		while !__done
+            invariant end <= stored_latest(monitor_key.0), end < u64::MAX, !__done ==> __cur <= end,
+            decreases (if __done { 0int } else { end - __cur + 1 })
         {
+            let update_id = __cur;
+            if __cur == end { __done = true; } else { __cur = __cur + 1; }
 			let update_name = UpdateName::from(update_id);
 			let primary = update_ns();
 			let key = monitor_key;
